@@ -364,6 +364,12 @@ E2E = [
     (dict(x=(0, 3), y=(0, 3), z=(0, 7), c='bool'), r"(y' = x) /\ (z' >= 0) /\ (c' \/ ~ c')", ["y'", "z'", "c'"]),
     (dict(x=(0, 2), y=(0, 2), z=(-2, 1)), "y' # x", ["y'", "z'"]),
     (dict(x=(0, 1), y=(0, 1), b='bool'), 'TRUE', ["y'", "b'"]),
+    # partial relations (some states admit no output) whose forced output depends on two inputs jointly
+    (dict(a='bool', b='bool', y='bool'), r"(a <=> b) /\ (y' <=> a)", ["y'"]),
+    (dict(x=(0, 3), z=(0, 3), y=(0, 3)), r"(x = z) /\ (y' = x)", ["y'"]),
+    (dict(x=(-2, 1), b='bool', y=(-2, 1), c='bool'), r"(b <=> (x < 0)) /\ (y' = x) /\ (c' <=> ~ b)", ["y'", "c'"]),
+    # a requested output listed twice
+    (dict(x=(-4, 3), b='bool', y=(-4, 3), c='bool'), r"(y' = x + 1 \/ (x = 3 /\ y' = y)) /\ (c' <=> b)", ["y'", "c'", "y'"]),
     # bitfields of more than 10 bits (bit names x_10, x_11 sort before x_2 as strings)
     (dict(x=(0, 2047), y=(0, 2047), b='bool'), r"(y' = x) /\ (b' <=> (x >= 1024))", ["y'", "b'"]),
     (dict(x=(-2000, 2000), y=(-2048, 2047)), "y' = x", ["y'"]),
@@ -452,8 +458,9 @@ def e2e_program(idx, backend):
                     sub += [(z(b), z3.BoolVal(x)) for b, x in _encode(t, v, val).items()]
             here = z3.substitute(rel, *sub)
             solvable = eng.check_sat([here])[0] == 'sat'
+            arg = dict(state)
             try:
-                out = ns['step'](dict(state))
+                out = ns['step'](arg)
             except Exception as e:
                 if len(fails) < 4:
                     fails.append(dict(name='generated step() runs on every state of representable values (negative integers and Booleans included)',
@@ -465,24 +472,38 @@ def e2e_program(idx, backend):
                     _logging.disable(old_disable)
             if not solvable:
                 continue
-            ok = set(out) == set(out_vars)
-            if ok:
-                sub2 = list()
-                for pv, val in out.items():
-                    base = pv[:-1]
-                    if decl[base] == 'bool':
-                        sub2.append((z(pv), z3.BoolVal(bool(val))))
-                    else:
-                        enc = _encode(t, pv, val)
-                        sub2 += [(z(b), z3.BoolVal(x)) for b, x in enc.items()]
-                        L, H = den.limits(base)
-                        ok = ok and L <= val <= H
-                there = z3.simplify(z3.substitute(here, *sub2))
-                ok = ok and z3.is_true(there)
-            if not ok and len(fails) < 4:
+            def admissible(out):
+                ok = set(out) == set(out_vars)
+                if ok:
+                    sub2 = list()
+                    for pv, val in out.items():
+                        base = pv[:-1]
+                        if decl[base] == 'bool':
+                            sub2.append((z(pv), z3.BoolVal(bool(val))))
+                        else:
+                            enc = _encode(t, pv, val)
+                            sub2 += [(z(b), z3.BoolVal(x)) for b, x in enc.items()]
+                            L, H = den.limits(base)
+                            ok = ok and L <= val <= H
+                    there = z3.simplify(z3.substitute(here, *sub2))
+                    ok = ok and z3.is_true(there)
+                return ok
+            if not admissible(out) and len(fails) < 4:
                 fails.append(dict(
                     name='generated step() returns values for exactly the requested outputs that satisfy the relation with the state',
                     state=str(state), returned=str(out), formula=formula))
+            elif n % 4 == 0:
+                # a caller that keeps its state in one dict and calls step() on it again
+                # (nothing was assigned in between): the answer must again be admissible
+                try:
+                    out2 = ns['step'](arg)
+                    ok2 = admissible(out2)
+                except Exception as e:
+                    out2, ok2 = repr(e), False
+                if not ok2 and len(fails) < 4:
+                    fails.append(dict(
+                        name='generated step() called a second time on the caller\'s same state dict returns again values that satisfy the relation with the state',
+                        state=str(state), first=str(out), second=str(out2)[:200], state_dict_afterwards=str(arg)[:200], formula=formula))
         return dict(records=[], stats=dict(), functions=_FUNS, bounded=dict(
             evaluations=n, programs=1, failures=fails, formula=formula,
             backend=backend, samples=[code[:200]]))
